@@ -4,9 +4,9 @@ CONSTANTS
   Faults = {}
   AwaitStoppingInner = TRUE
   LateStart = FALSE
-INIT InitMain
+INIT InitAllStarted
 NEXT Next
 VIEW view
-INVARIANTS TypeOK StopOrderState FailurePropagates
+INVARIANTS TypeOK StopOrderState FailurePropagates FailureIsReported
 PROPERTIES StartAfterDeps StopAfterDependants
 CHECK_DEADLOCK TRUE
